@@ -469,6 +469,9 @@ def check(ctx, cfg, acc, via="as_vcf"):
     nontrivial = ctx.nontrivial_base and (kind == "error" or len(exp["rows"]) > 0)
     acc.ev(1, nontrivial)
     acc.count("expect_error" if kind == "error" else "expect_ok")
+    if nontrivial and not acc.samples:
+        acc.sample({"case": case, "expected": kind if kind == "error" else f"{len(exp['rows'])} data lines",
+                    "observed": got[0]})
     for key, what in problems:
         acc.fail(key, what, case)
     return got
@@ -547,7 +550,6 @@ def block_gt(spec, acc):
                 if full:
                     check(ctx, {"apz": True, "iam": False}, acc)
                     check(ctx, {"apz": True, "iam": True}, acc)
-        acc.sample({"block": "gt", "member": m.desc(), "sites": ctx.S})
 
 
 INT_ALPHA = [0.0, 0.5, 1.0, 1.5, 2.5]
@@ -587,7 +589,6 @@ def block_mask(spec, acc):
             for apz in (None, False, True):
                 for tr in TRANSFORMS:
                     check(ctx, {"site_mask": smask, "apz": apz, "transform": tr}, acc)
-    acc.sample({"block": "mask", "member": m.desc(), "alphabet": alpha})
 
 
 def block_alleles(spec, acc):
@@ -612,7 +613,6 @@ def block_alleles(spec, acc):
                         if apz:
                             check(ctx, {"site_mask": smask, "apz": apz, "iam": False,
                                         "sample_mask": {"form": "call_nodes", "nodes": [m.samples[0]]}}, acc)
-    acc.sample({"block": "alleles", "positions": pos})
 
 
 def three_topologies(N):
@@ -650,7 +650,6 @@ def block_layout(spec, acc):
                     check(ctx, {"apz": True, "ploidy": 1}, acc)
                     names = [f"n{j}" for j in range(K)]
                     check(ctx, {"apz": True, "names": names}, acc)
-    acc.sample({"block": "layout", "members": len(members), "K_max": K_max})
 
 
 def block_smask(spec, acc):
@@ -699,7 +698,6 @@ def block_smask(spec, acc):
                                     "sample_mask": {"form": form, "pattern": pat}}, acc)
                 check(ctx, {"apz": True, "individuals": [K - 1, 0],
                             "sample_mask": {"form": "call_nodes", "nodes": [S[0]]}}, acc)
-    acc.sample({"block": "smask", "b": spec["b"]})
 
 
 def block_misc(spec, acc):
@@ -723,7 +721,6 @@ def block_misc(spec, acc):
             for contig in (None, "c"):
                 for apz in (None, True):
                     check(ctx, {"apz": apz, "ploidy": pl, "contig_id": contig}, acc, via="cli")
-    acc.sample({"block": "misc", "b": spec["b"]})
 
 
 BLOCKS = {"gt": block_gt, "mask": block_mask, "alleles": block_alleles, "layout": block_layout,
